@@ -120,6 +120,22 @@ CLAIMED = {
             "the real threads under a controller (random, biased, alternating and exhaustive schedules) and replaying each event trace on the model.",
             "Trusted: Lean kernel; atomicity and FIFO of queue.Queue, atomic attribute access, Thread.start/join (CPython); fused local steps; harness/vp/rlsched.py.",
             "DESIGN.md §4 C10"),
+    "C03": ("Lean 4 proof (membership for an arbitrary raw proposal: finish = digitize / choice from the grid; inheritance through the dedup loop; grid within bounds) + snap-mechanism conformance and exact membership oracle on all nine real samplers",
+            "Proved in Lean for every grid, history, seed, raw-proposal function and pass budget: sample() of a snapping sampler returns batch_size rows whose every coordinate "
+            "is an element of its parameter grid (C17 membership + C12 substitution), likewise for random-uniform (choice contract), and grid elements lie in [lower, upper+tol) "
+            "(C15); Lean witness of the repaired best-batch defect (clip alone leaves the grid). The tie to the code is checked each run: what every sample_batch returns IS the "
+            "output of its final digitize_data call, that call is replayed bit-for-bit on the model, and every proposal of every sampler is tested for exact grid membership "
+            "over random spaces (non-aligned bounds, scales 1e-6..1e6), histories and successive calls.",
+            "Trusted: Lean kernel; numpy choice contract; third-party optimisers/surrogates as arbitrary functions.",
+            "DESIGN.md §4 C03"),
+    "C16": ("Lean 4 proof (lowest-k selection for every admissible argsort; shape of a best-batch proposal for distinct shocked coordinates) + byte snapshots of the history on all samplers, scripted and real surrogates, best-batch replayed from recorded draws",
+            "Proved in Lean: for any pool, predictions and any sorting permutation the selected candidates are the pool rows at k distinct valid indices and every selected "
+            "prediction is <= every unselected one; a best-batch row equals the parent with each shocked (distinct) coordinate displaced by size precision steps in the drawn "
+            "direction and clipped, other coordinates unchanged. No-modification is decided on the real arrays (byte snapshots, losses +-inf/1e40/float32-overflow, every "
+            "sampler); fit/predict arguments and the lowest-k rule are checked with a scripted surrogate and the real RF/XGB/GP; every best-batch proposal is reproduced bit "
+            "for bit by the model from the recorded generator draws.",
+            "Trusted: Lean kernel; np.argsort returns a sorting permutation (validated per case); scipy betabinom range; harness/vp/tape.py.",
+            "DESIGN.md §4 C16"),
 }
 NOT_YET = {}
 
